@@ -196,14 +196,31 @@ func (w *World) rulesV4ScoreRest(m *scoreModel, modFn *types.Func, add func(ok b
 		byName["$"+o.Name()] = o
 	}
 	// ---- E: symbolic tree of the suffix
-	oracle := parseFormulas(formulaSection("40"), p.atomDomain)
-	ctx := p.newSymCtx(oracle["round"], "ru")
-	if len(ctx.roundFns) == 0 {
-		add(false, "R04.round", "round", fd, "no func(float64) float64 whose body is Round(x*10)/10")
-	} else {
-		for fn := range ctx.roundFns {
-			add(true, "R04.round", "round["+fn.Name()+"]", p.FuncObj[fn], "body is exactly "+oracle["round"].String())
+	// the rounding helper is whatever func(float64) float64 the final return applies;
+	// its behaviour is decided semantically in checkInterp (R04.round), not by its shape
+	ctx := p.newSymCtx(nil, "ru")
+	for _, s := range m.suffix {
+		rs, ok := s.(*ast.ReturnStmt)
+		if !ok || len(rs.Results) != 1 {
+			continue
 		}
+		if call, ok := rs.Results[0].(*ast.CallExpr); ok && len(call.Args) == 1 {
+			if fn := calleeOf(info, call); fn != nil && fn.Pkg() == p.P.Types {
+				sig := fn.Type().(*types.Signature)
+				if sig.Recv() == nil && sig.Params().Len() == 1 && isFloat(sig.Params().At(0).Type()) && sig.Results().Len() == 1 && isFloat(sig.Results().At(0).Type()) {
+					ctx.roundFns[fn] = true
+					if rt, err := (&symCtx{p: p, roundFns: map[*types.Func]bool{}}).treeOf(p.FuncObj[fn]); err == nil {
+						m.roundTree = rt
+						m.roundFn = p.FuncObj[fn]
+					} else {
+						add(false, "R04.round", "round["+fn.Name()+"]", p.FuncObj[fn], "the rounding helper is outside the formula language (undecided): "+err.Error())
+					}
+				}
+			}
+		}
+	}
+	if len(ctx.roundFns) == 0 {
+		add(false, "R04.round", "round", fd, "Score does not return the result of a rounding helper func(float64) float64")
 	}
 	se := &sEnv{c: ctx, vars: map[types.Object]*Ex{}, codes: map[types.Object]codeSym{}}
 	// every local assigned anywhere before the suffix becomes a symbol
